@@ -4,6 +4,8 @@ VARIANTS = {
     "plain": {},
     # queue code with sync/channel operations routed through the controlled scheduler
     "sched-queue": {"rewrite": ["internal/queue/*.go"]},
+    # secret store with its mutexes visible to the scheduler (datastore operations are points via the harness datastore)
+    "sched-secret": {"rewrite": ["pkg/secretstore/*.go"]},
     # notify primitive and its three clients; the connectedness manager and the peer cache are compiled on their
     # own as virtual packages (rewritten copy of the current source file, package clause renamed)
     "sched-conn": {"rewrite": [
@@ -88,5 +90,13 @@ CHECKS = {
                      "connectedness_manager.go and peer_cache.go are compiled on their own (same source text, package clause renamed) so that the harness need not link the root package / libp2p discovery stack",
                      "peer cache timestamps come from a virtual clock that advances 1 ns per reading",
                      "lock order is covered dynamically (every pair of public methods as free threads), not by a static lock graph"],
+    ),
+    "C09": dict(
+        harness="pkg__secretstore", run="TestVerifC09", variant="sched-secret", level="model_checking", gomaxprocs=2,
+        shards={"quick": 8, "thorough": 16},
+        technique="stateless model checking of concurrent SealEnvelope calls on the real secret store under a controlled scheduler (scheduling points at every mutex operation of the package and at every datastore operation), iterative preemption bounding",
+        rule="2-3 sender threads x 1-2 messages on one or two groups (all three group types), optionally a thread announcing the chain key or re-opening an own message; states = distinct schedule prefixes, transitions = scheduling steps, traces = complete executions; classes = distinct (scenario, order of counters handed out) outcomes",
+        assumptions=["sequentially consistent interleavings at the package's lock operations and at datastore operations; true parallel memory effects are not modelled",
+                     "crypto and protobuf code runs atomically between two scheduling points"],
     ),
 }
